@@ -2,6 +2,7 @@ package verifchecks
 
 import (
 	"encoding/json"
+	"fmt"
 	"sort"
 	"strings"
 	"testing"
@@ -49,7 +50,7 @@ func (g *gm) checkCatalogue() {
 		}
 	}
 	sort.Strings(got)
-	want := g.live()
+	want := g.m.AllNames()
 	if strings.Join(got, ",") != strings.Join(want, ",") {
 		g.fail("CATALOGUE-LIST GET /datasets=%v model=%v", got, want)
 	}
@@ -79,10 +80,52 @@ func (g *gm) checkCatalogue() {
 			g.fail("CATALOGUE-META live meta-entity for %s which is not an existing dataset (deleted or renamed away): %s", name, liveMeta[name].Key())
 		}
 	}
-	for _, name := range g.live() {
+	for _, name := range g.m.AllNames() {
 		me := liveMeta[name]
 		if me == nil {
 			g.fail("CATALOGUE-META no live meta-entity for existing dataset %s", name)
+		}
+		// the kind of dataset and its proxy / virtual settings, as the meta-entity tells them
+		md := g.m.DS[name]
+		wantType, gotType := "dataset", ""
+		if md.Proxy {
+			wantType = "proxy-dataset"
+		} else if md.Virtual {
+			wantType = "virtual-dataset"
+		}
+		for k, v := range me.Refs {
+			if strings.HasSuffix(k, ":type") {
+				_, gotType, _ = strings.Cut(fmt.Sprint(v), ":")
+			}
+		}
+		if gotType != wantType {
+			g.fail("CATALOGUE-KIND meta-entity of %s has type %q, the dataset was created as %q: %s", name, gotType, wantType, me.Key())
+		}
+		for k, v := range me.Props {
+			_, local, _ := strings.Cut(k, ":")
+			switch {
+			case local == "remoteUrl" && (!md.Proxy || v != gmProxyURL),
+				local == "transform" && (!md.Virtual || v != gmVirtualJS):
+				g.fail("CATALOGUE-KIND meta-entity of %s carries %s=%v, the dataset was created as %q", name, local, v, wantType)
+			}
+		}
+		if md.Proxy {
+			found := false
+			for k := range me.Props {
+				found = found || strings.HasSuffix(k, ":remoteUrl")
+			}
+			if !found {
+				g.fail("CATALOGUE-KIND meta-entity of proxy dataset %s carries no remoteUrl: %s", name, me.Key())
+			}
+		}
+		if md.Virtual {
+			found := false
+			for k := range me.Props {
+				found = found || strings.HasSuffix(k, ":transform")
+			}
+			if !found {
+				g.fail("CATALOGUE-KIND meta-entity of virtual dataset %s carries no transform: %s", name, me.Key())
+			}
 		}
 		var nameProp any
 		var items any
@@ -158,7 +201,7 @@ func (g *gm) checkCatalogue() {
 			g.fail("CATALOGUE-GET GET /datasets/%s -> %d %.200s", name, code, body)
 		}
 	}
-	for _, n := range mgmtPool {
+	for _, n := range append(append([]string{}, mgmtPool...), specialPool...) {
 		if g.m.DS[n] == nil {
 			if code, _ := g.h.Do("GET", "/datasets/"+n, "", nil); code != 404 {
 				g.fail("CATALOGUE-GET GET /datasets/%s (not existing) -> %d, want 404", n, code)
